@@ -5,12 +5,14 @@
 //
 // Op line (fields separated by one space, no ';'):
 //
-//	T <raw> M=<txhash|-> K=<keys|-> S=<sigs|-> V=<pairs|-> W=<0|1> X=<claim|-> G=<generator tag>
+//	T <raw> M=<txhash|-> K=<keys|-> S=<sigs|-> V=<pairs|-> W=<0|1> X=<claim|-> G=<generator tag> [P=<pre-ops|->]
 //
 //	K entry  <keybytes>:<kid>:<SerializePublicKey>:<ethaddr|->      kid = rank under keypair.SortPublicKeys
 //	S entry  <sigbytes>:<sid>                                       only signatures s.Deserialize accepts
 //	V entry  <kid>:<sid>:<o|p>                                      s.Verify(key, M, sig) true / panics (false omitted)
 //	W        wasmvm.ReadWasmModule verdict for a wasm deploy payload (1 when not applicable)
+//	P        operations on the decoded transaction OBJECT before the final VerifyTransaction, joined by '.':
+//	         g GetSignatureAddresses()  v VerifyTransaction  h Hash()  r ToArray()  s<addr> tx.SignedAddr = [addr]
 //	X claim  b:<off>:<orig>   the raw bytes are a single-byte mutant (original byte <orig> at <off>) of another tx
 package siggen
 
@@ -34,6 +36,8 @@ import (
 	"github.com/ontio/ontology/core/payload"
 	"github.com/ontio/ontology/core/program"
 	"github.com/ontio/ontology/core/types"
+	"github.com/ontio/ontology/core/validation"
+	ontErrors "github.com/ontio/ontology/errors"
 	"github.com/ontio/ontology/smartcontract/service/wasmvm"
 	"golang.org/x/crypto/ed25519"
 	"verif/harness/internal/hx"
@@ -761,13 +765,22 @@ type PLine struct {
 	Tag    string
 	MutOff int
 	MutOld byte
+	Pre    []string // pre-operations on the transaction object
 }
 
 func ParseLine(line string) (PLine, bool) {
 	f := strings.Fields(line)
 	p := PLine{KeyID: map[string]int{}, MutOff: -1}
-	if len(f) != 9 || f[0] != "T" {
+	if (len(f) != 9 && len(f) != 10) || f[0] != "T" {
 		return p, false
+	}
+	if len(f) == 10 {
+		if !strings.HasPrefix(f[9], "P=") {
+			return p, false
+		}
+		if v := f[9][2:]; v != "-" {
+			p.Pre = strings.Split(v, ".")
+		}
 	}
 	raw, err := hx.Unhex(f[1])
 	if err != nil {
@@ -956,5 +969,100 @@ func Limit(res *hx.Result) {
 	if reported[res.Class] > maxPerClass {
 		res.Kind += " [" + res.Class + ": repeat, not re-reported]"
 		res.Fail, res.Class = "", ""
+	}
+}
+
+// ---------------------------------------------------------------------------------------------------------------
+// the transaction as an object with state
+
+// VerifyTx runs validation.VerifyTransaction; a panic is the code "PANIC".
+func VerifyTx(tx *types.Transaction) (code string) {
+	defer func() {
+		if e := recover(); e != nil {
+			code = "PANIC"
+		}
+	}()
+	switch validation.VerifyTransaction(tx) {
+	case ontErrors.ErrNoError:
+		return "ok"
+	case ontErrors.ErrVerifySignature:
+		return "sig"
+	case ontErrors.ErrTransactionPayload:
+		return "payload"
+	}
+	return "other"
+}
+
+// ApplyPre runs the pre-operations of an op line on the object and returns their canonical outputs
+// ("-" when there are none) plus a description of any invariant of the read-only getters that broke.
+func ApplyPre(tx *types.Transaction, raw []byte, ops []string) (out string, broken string) {
+	if len(ops) == 0 {
+		return "-", ""
+	}
+	var outs []string
+	for _, op := range ops {
+		switch {
+		case op == "g":
+			outs = append(outs, "g:"+SortedAddrs(tx.GetSignatureAddresses()))
+		case op == "v":
+			outs = append(outs, "v:"+VerifyTx(tx))
+		case op == "h":
+			h := tx.Hash()
+			if len(raw) >= len(tx.Raw) {
+				if reg, _, ok := Layout(raw); ok {
+					lu := 0
+					for lu < len(reg) && (reg[lu].Name == "signed" || reg[lu].Name == "payer") {
+						lu++
+					}
+					if !bytes.Equal(h[:], Sha256d(raw[:lu])) {
+						broken = "Hash() is not sha256d of the unsigned bytes"
+					}
+				}
+			}
+			outs = append(outs, "h")
+		case op == "r":
+			if a := tx.ToArray(); len(a) > len(raw) || !bytes.Equal(a, raw[:len(a)]) {
+				broken = "ToArray() is not the consumed prefix of the raw bytes"
+			}
+			outs = append(outs, "r")
+		case strings.HasPrefix(op, "s"):
+			b, _ := hx.Unhex(op[1:])
+			var a common.Address
+			copy(a[:], b)
+			tx.SignedAddr = []common.Address{a}
+			outs = append(outs, "s")
+		default:
+			outs = append(outs, "?")
+		}
+	}
+	return strings.Join(outs, "|"), broken
+}
+
+// GenPre chooses the pre-operations for a generated line; payer = bytes 22..42 of an Ontology-format raw tx.
+func GenPre(r *hx.Rand, raw []byte) string {
+	switch x := r.Intn(100); {
+	case x < 40:
+		return "-"
+	case x < 60:
+		return "g"
+	case x < 68:
+		return "v"
+	case x < 74:
+		return "g.v"
+	case x < 79:
+		return "v.g"
+	case x < 83:
+		return "h.r"
+	case x < 87:
+		return "g.g.h"
+	case x < 91:
+		return "s" + hex.EncodeToString(r.Bytes(20))
+	case x < 96:
+		if len(raw) >= 42 {
+			return "s" + hex.EncodeToString(raw[22:42]) // the payer itself sits in the cache
+		}
+		return "g"
+	default:
+		return "r.g.v.g"
 	}
 }
